@@ -7,7 +7,7 @@
 EXTENDS Naturals, Sequences, TLC, Json, IOUtils, FiniteSets
 
 C == INSTANCE Controllers WITH
-       MaxStepsSet <- {}, PatienceSet <- {}, MaxLen <- 0, MaxResets <- 0, KeepHist <- FALSE,
+       MaxStepsSet <- {}, PatienceSet <- {}, MaxLen <- 0, MaxResets <- 0, KeepHist <- FALSE, WithSnap <- FALSE, saved <- 0,
        c <- 0, steps <- 0, pc <- 0, cont <- TRUE, hist <- <<>>, n <- 0, resets <- 0, loop <- "idle"
 
 CONSTANTS GMax, GPat, GLen
